@@ -278,6 +278,32 @@ def deep_trees(res):
             res.violation(f"TreeSchema on the tree of an expression nested {depth} levels deep raised {type(e).__name__}", {"kind": "deep-tree", "depth": depth})
 
 
+def shipped_fc_results(res):
+    """evaluated format constraints as the SHIPPED date-time constraints 931-935 produce them (GermanTime.tla's domain and the edges of the representable
+    range, other strings) alone and inside a content evaluation result"""
+    import ahb  # noqa: F401
+    from ahbicht.content_evaluation.fc_evaluators import FcEvaluator
+    from ahbicht.models.condition_nodes import EvaluatedFormatConstraintSchema
+    from ahbicht.models.content_evaluation_result import ContentEvaluationResult, ContentEvaluationResultSchema
+    ev = type("Shipped", (FcEvaluator,), {})()
+    acc = Acc()
+    inputs = ["2022-12-31T23:00:00+00:00", "2022-06-01T04:00:00Z", "2022-06-01T12:00:00+02:00", "9999-12-31T23:30:00+00:00", "0001-01-01T00:00:00+05:00",
+              "0001-01-01T00:00:00-05:00", "9999-12-31T23:59:59-12:00", "", "no datetime", "2022-01-01T00:00:00", "x" * 1200, None]
+    for s in inputs:
+        for k in (931, 932, 933, 934, 935):
+            try:
+                r = getattr(ev, f"evaluate_{k}")(s)
+            except BaseException:  # pylint:disable=broad-except  # noqa: BLE001 - whether these raise is C20's business
+                continue
+            case = {"kind": "shipped-fc", "key": k, "string": s}
+            acc.rt(EvaluatedFormatConstraintSchema, r, f"result of evaluate_{k}({s!r})", case)
+            acc.rt(ContentEvaluationResultSchema, ContentEvaluationResult(hints={}, requirement_constraints={}, format_constraints={str(k): r}),
+                   f"content evaluation result carrying the result of evaluate_{k}({s!r})", case)
+    for d, c in acc.viol:
+        res.violation(d, c)
+    res.count("round_trips", acc.counts.get("round_trips", 0))
+
+
 def run():
     from c02 import merge
     res = Result(PID)
@@ -307,6 +333,7 @@ def run():
     with mp.get_context("fork").Pool(16) as pool:
         merge(res, pool.map(_worker, jobs, chunksize=1))
     deep_trees(res)
+    shipped_fc_results(res)
     res.coverage["traces_validated_against_impl"] = res.coverage.get("round_trips", 0)
     res.coverage["evaluations"] = res.coverage.get("evaluations", 0) + res.coverage.get("round_trips", 0)
     res.coverage["exhaustive"] = False
